@@ -522,7 +522,13 @@ impl IncrementalEngine {
                     // Keys are in format "FactType.field" or "FactType.handle.field"
                     // We want to extract the FactType and field name
                     if let Some(original_value) = original_facts.get(key) {
-                        if original_value != value {
+                        // NaN is unequal to itself: a NaN the action did not touch is not a write
+                        // (it used to be copied into every fact of the type after any firing)
+                        let both_nan = matches!(
+                            (original_value, value),
+                            (FactValue::Float(x), FactValue::Float(y)) if x.is_nan() && y.is_nan()
+                        );
+                        if original_value != value && !both_nan {
                             // Value changed! Extract fact type and field
                             let parts: Vec<&str> = key.split('.').collect();
                             if parts.len() >= 2 {
